@@ -21,10 +21,11 @@ CLAIMS = {
     "C19": dict(
         engine="kani-contracts", category="proof", design_ref="DESIGN.md §4 C19",
         technique="Kani function-level contracts (pre/post harnesses on the real functions, full input domain, loop-free) discharged by CBMC",
-        text=("Partial: the two separable conversion kernels are proved over their full input domain - WidthClass::try_from over all u16 (no overflow on any path, so debug and "
+        text=("Partial: the separable conversion kernels are proved over their full input domain - WidthClass::try_from over all u16 (no overflow on any path, so debug and "
               "release agree; Ok <=> 1..=9) and create_component_ref_gid over all finite f64 offsets (a stored offset is the rounded source value or the call is an error, never a clamp) "
               "and all 2x2 entries in [-2,2] (within one 2.14 ulp). CBMC's automatic overflow/cast checks are the 'optimised and debug builds agree' clause. "
-              "Other narrowing sites named by the property (advances, kerning/anchor values, glyph count) are inlined in Context-taking job bodies and are NOT covered."),
+              "GlyphInstance::height / vertical_origin (vmtx advance and origin) are proved exact for every representable value and proved to saturate, never wrap, otherwise; that they are *stored clamped instead of rejected* beyond the field's range is a genuine, recorded (not repaired: infallible signature) defect - the check prints two KNOWN-FINDING lines for it and exits 0. MetricsBuilder::update's clamps and overflow freedom are cross-listed from C17. "
+              "Other narrowing sites named by the property (advance widths, kerning/anchor values, glyph count) are inlined in Context-taking job bodies and are NOT covered."),
         note=_KANI_NOTE + "Upstream guarantee |2x2 entries| <= 2 is a precondition, not proved.",
     ),
     "C16": dict(
